@@ -173,26 +173,27 @@ theorem getElem?_some_of_fill {out : List (Option WSec)} {res : List WSec} (hl :
     rw [this]; simp [hk]
   · rw [List.getElem?_eq_none (by omega), List.getElem?_eq_none (by simp; omega)]
 
-theorem save_roundtrip {DS DB} (R : Registry DS DB) (gbS gbB : Nat) (ypos : BitVec 32) (c : Chunk)
+theorem save_roundtrip {DS DB} (R : Registry DS DB) (gbS gbB : Nat) (dst₀ : SaveChunk DS DB) (c : Chunk)
     (hn : c.secs.length < 2 ^ 31)
-    (hy : ∀ k : Nat, k < c.secs.length → -128 ≤ (k : Int) + ypos.toInt ∧ (k : Int) + ypos.toInt ≤ 127)
+    (hy : ∀ k : Nat, k < c.secs.length → -128 ≤ (k : Int) + dst₀.ypos.toInt ∧ (k : Int) + dst₀.ypos.toInt ≤ 127)
     (hsecs : ∀ s ∈ c.secs, SecSaveRT R gbS gbB s) (hhm : HmOK c.secs.length c.hm) :
-    ∃ sv c', chunkToSave R gbS gbB ypos c = .ok sv ∧ chunkFromSave R gbS gbB sv = .ok c' ∧
+    ∃ sv c', chunkToSave R gbS gbB dst₀ c = .ok sv ∧ chunkFromSave R gbS gbB sv = .ok c' ∧
+      sv.otherHM = dst₀.otherHM ∧ sv.untouched = dst₀.untouched ∧ sv.ypos = dst₀.ypos ∧
       sv.secs.length = c.secs.length ∧
-      (∀ (k : Nat) (h : k < sv.secs.length), sv.secs[k].y = BitVec.setWidth 8 (BitVec.ofNat 32 k + ypos)) ∧
+      (∀ (k : Nat) (h : k < sv.secs.length), sv.secs[k].y = BitVec.setWidth 8 (BitVec.ofNat 32 k + dst₀.ypos)) ∧
       sv.hm = ⟨some c.hm.worldSurfaceWG.data, some c.hm.worldSurface.data, some c.hm.oceanFloorWG.data,
                some c.hm.oceanFloor.data, some c.hm.motionBlocking.data, some c.hm.motionBlockingNoLeaves.data⟩ ∧
       sv.status = c.status ∧
       c'.secs.length = c.secs.length ∧
       (∀ (k : Nat) (h1 : k < c'.secs.length) (h2 : k < c.secs.length), SecSame R.isAir gbS gbB c'.secs[k] c.secs[k]) ∧
       c'.hm = c.hm ∧ c'.status = c.status := by
-  obtain ⟨out, res, t1, t2, t3, t4⟩ := toSaveSecs_ok R gbS gbB ypos 0 c.secs hsecs
+  obtain ⟨out, res, t1, t2, t3, t4⟩ := toSaveSecs_ok R gbS gbB dst₀.ypos 0 c.secs hsecs
   let svhm : SaveHM := ⟨some c.hm.worldSurfaceWG.data, some c.hm.worldSurface.data, some c.hm.oceanFloorWG.data,
     some c.hm.oceanFloor.data, some c.hm.motionBlocking.data, some c.hm.motionBlockingNoLeaves.data⟩
-  let sv : SaveChunk DS DB := ⟨out, svhm, c.status, ypos⟩
-  have hsv : chunkToSave R gbS gbB ypos c = .ok sv := by simp only [chunkToSave, t1, sv, svhm]
+  let sv : SaveChunk DS DB := ⟨out, svhm, dst₀.otherHM, c.status, dst₀.ypos, dst₀.untouched⟩
+  have hsv : chunkToSave R gbS gbB dst₀ c = .ok sv := by simp only [chunkToSave, t1, sv, svhm]
   -- the section loop
-  obtain ⟨slots, l1, l2, _, _, l5⟩ := loadSections_fill R gbS gbB ypos out.length out (List.replicate out.length none) 0 res
+  obtain ⟨slots, l1, l2, _, _, l5⟩ := loadSections_fill R gbS gbB dst₀.ypos out.length out (List.replicate out.length none) 0 res
     (by simp) (by omega) (by omega)
     (fun k h => by
       have hk : k < c.secs.length := by omega
@@ -200,7 +201,7 @@ theorem save_roundtrip {DS DB} (R : Registry DS DB) (gbS gbB : Nat) (ypos : BitV
       have e := (t4 k h hk (by omega)).1
       simp only [Nat.zero_add] at e ⊢
       rw [e]
-      have := index_roundtrip ypos k out.length h (by omega) hyk.1 hyk.2
+      have := index_roundtrip dst₀.ypos k out.length h (by omega) hyk.1 hyk.2
       exact ⟨this.2.1, this.2.2.1, this.2.2.2⟩)
     (fun k h1 h2 => (t4 k h1 (by omega) h2).2.1)
   have hslots : slots = res.map some := getElem?_some_of_fill (by omega) l5
@@ -211,7 +212,7 @@ theorem save_roundtrip {DS DB} (R : Registry DS DB) (gbS gbB : Nat) (ypos : BitV
     rw [t2]
     simp only [hhm.ws, hhm.wswg, hhm.ofwg, hhm.ofl, hhm.mb, hhm.mbnl]
     simp [c']
-  refine ⟨sv, c', hsv, hc', t2, ?_, rfl, rfl, t3, ?_, rfl, rfl⟩
+  refine ⟨sv, c', hsv, hc', rfl, rfl, rfl, t2, ?_, rfl, rfl, t3, ?_, rfl, rfl⟩
   · intro k h
     have h' : k < out.length := h
     have := (t4 k h' (by omega) (by omega)).1
